@@ -247,6 +247,126 @@ def canary_specs():
          lambda A: [o.status for o in set_obligations(A, {})[0] if 'ParamsGenerator._check_tensor_names_are_unique' in o.id] or [core.PROVED], 'all'),
     ]
 
+# ---- regression cases for the parameter-rebinding rule (effects.FnInfo.rebind_line): a synthetic module analysed together with the
+# real package (override-only entry), independent of the repository text.  name -> expected verdict for parameter `p`.
+SELFTEST_REL = '__c14_selftest__.py'
+SELFTEST_SRC = '''
+import copy
+def _sink(d):
+  d['k']['min'] = 0
+def ifelse_deepcopy(p):
+  if p is None:
+    p = {}
+  else:
+    p = copy.deepcopy(p)
+  _sink(p)
+def elif_chain_all_rebind(p, a):
+  if p is None:
+    p = {}
+  elif a:
+    p = copy.deepcopy(p)
+  else:
+    p = copy.deepcopy(p)
+  _sink(p)
+def ifelse_other_branch_raises(p):
+  if p is None:
+    raise ValueError('x')
+  else:
+    p = copy.deepcopy(p)
+  _sink(p)
+def ifexp_deepcopy(p):
+  p = copy.deepcopy(p) if p is not None else {}
+  _sink(p)
+def plain_deepcopy(p):
+  p = copy.deepcopy(p)
+  _sink(p)
+def shallow_copy_top_level_store_only(p):
+  p = dict(p)
+  p['new'] = 1
+def if_without_else(p, flag):
+  if flag:
+    p = copy.deepcopy(p)
+  _sink(p)
+def branch_not_rebinding(p, flag):
+  if flag:
+    p = copy.deepcopy(p)
+  else:
+    pass
+  _sink(p)
+def elif_chain_missing_else(p, a, b):
+  if a:
+    p = {}
+  elif b:
+    p = copy.deepcopy(p)
+  _sink(p)
+def ifelse_shallow_copy(p):
+  if p is None:
+    p = {}
+  else:
+    p = dict(p)
+  _sink(p)
+def ifexp_shallow_copy(p):
+  p = dict(p) if p is not None else {}
+  _sink(p)
+def mutating_use_before_rebinding(p):
+  p.pop('x', None)
+  if p is None:
+    p = {}
+  else:
+    p = copy.deepcopy(p)
+  _sink(p)
+def branch_rebinds_to_itself(p, q):
+  if q is None:
+    p = copy.deepcopy(p)
+  else:
+    p = p
+  _sink(p)
+def rebinding_inside_loop(p, xs):
+  for x in xs:
+    p = copy.deepcopy(p)
+  _sink(p)
+def rebinding_in_try(p):
+  try:
+    p = copy.deepcopy(p)
+  except Exception:
+    pass
+  _sink(p)
+'''
+SELFTEST_EXPECT = dict(ifelse_deepcopy=core.PROVED, elif_chain_all_rebind=core.PROVED, ifelse_other_branch_raises=core.PROVED, ifexp_deepcopy=core.PROVED,
+                       plain_deepcopy=core.PROVED, shallow_copy_top_level_store_only=core.PROVED,
+                       if_without_else=core.REFUTED, branch_not_rebinding=core.REFUTED, elif_chain_missing_else=core.REFUTED, ifelse_shallow_copy=core.REFUTED,
+                       ifexp_shallow_copy=core.REFUTED, mutating_use_before_rebinding=core.REFUTED, branch_rebinds_to_itself=core.REFUTED,
+                       rebinding_inside_loop=core.REFUTED, rebinding_in_try=core.REFUTED)
+
+def rebinding_selftests(rep):
+    try: S = effects.Analysis(core.PKG, {SELFTEST_REL: SELFTEST_SRC}).run()
+    except Exception as e:
+        rep.canary('self-test: parameter-rebinding rule', False, f'analysis crashed: {type(e).__name__}: {e}'); return
+    for fn, want in SELFTEST_EXPECT.items():
+        got = decide_frame(S, (SELFTEST_REL, fn), 'p')[0]
+        rep.canary(f'self-test rebinding rule: {fn} must be {want}', got == want, f'got {got}')
+    # the same rule on the real function: mutants of the guard in ParamsGenerator.generate_quantization_parameters
+    src = core.read_source(PG); key = (PG, 'ParamsGenerator.generate_quantization_parameters'); fi = S.prog.fns[key]
+    if 'model_qsvs' in fi.rebind_line:
+        import ast as _ast
+        guard = next((s for s in fi.node.body if effects.stmt_rebinds(s, 'model_qsvs')), None)
+        seg = _ast.get_source_segment(src, guard, padded=True) if guard is not None else None
+        ind = ' ' * guard.col_offset if guard is not None else ''
+        muts = [('drop the copying branch (if without else)', f'{ind}if model_qsvs is None:\n{ind}  model_qsvs = {{}}'),
+                ('shallow copy dict(model_qsvs) instead of a deep copy', f'{ind}if model_qsvs is None:\n{ind}  model_qsvs = {{}}\n{ind}else:\n{ind}  model_qsvs = dict(model_qsvs)'),
+                ('rebinding in one branch only', f'{ind}if model_qsvs is None:\n{ind}  model_qsvs = {{}}\n{ind}else:\n{ind}  pass'),
+                ('mutating use before the guard', f'{ind}model_qsvs.pop("x", None)\n' + (seg or ''))]
+        for name, new in muts:
+            if not seg or seg not in src: rep.canary(f'generate_quantization_parameters guard: {name}', False, 'guard statement not found (stale canary)'); continue
+            try:
+                M = effects.Analysis(core.PKG, {PG: src.replace(seg, new, 1)}).run()
+                sts = [decide_frame(M, key, 'model_qsvs')[0], decide_frame(M, (Q, 'Quantizer.quantize'), 'calibration_result')[0]]
+            except Exception as e:
+                rep.canary(f'generate_quantization_parameters guard: {name}', False, f'analysis crashed on the mutant: {type(e).__name__}: {e}'); continue
+            rep.canary(f'generate_quantization_parameters guard: {name}', all(x == core.REFUTED for x in sts), str(sts))
+    else:
+        rep.notes.append('ParamsGenerator.generate_quantization_parameters does not rebind model_qsvs at top level: guard mutants not applicable')
+
 # ------------------------------------------------------------------------------------------------ run
 def run(rep):
     t0 = time.time()
@@ -321,9 +441,10 @@ def run(rep):
         except Exception as e:
             rep.canary(name, False, f'analysis crashed on the mutant: {type(e).__name__}: {e}'); continue
         rep.canary(name, bool(sts) and all(s != core.PROVED for s in sts), str(sts))
+    rebinding_selftests(rep)
     # ---- honest evidence
     refl = A.reflection_in(keys)
-    rep.trust('the frame analysis is syntactic and flow-insensitive over the source text (single exception: an unconditional top-level rebinding of a parameter name ends the scope of that parameter): reflection (setattr/getattr/exec/eval/__dict__/importlib) is not modelled; '
+    rep.trust('the frame analysis is syntactic and flow-insensitive over the source text (single exception: a top-level statement that rebinds a parameter name on every path through it ends the scope of that parameter; the assigned values keep whatever aliases they have): reflection (setattr/getattr/exec/eval/__dict__/importlib) is not modelled; '
               f'{len(refl)} such site(s) on the API call trees' + (': ' + '; '.join(f"{r['file']}:{r['line']} {r['text']}" for r in refl[:6]) if refl else ''))
     rep.trust('external callables behave as listed in vlib/effects.py (EXT_FUNCS / EXT_METHODS): numpy functions there are pure or return views as stated, json/copy/dataclasses '
               'helpers are pure, builtin container methods mutate only their receiver; any external callable NOT listed is reported as an unresolved call')
